@@ -499,7 +499,7 @@ package zygo
 // a loop record is made by the compiler and shared by every activation of the compiled loop
 // (recursive calls run the same code): nothing may write into it at run time, and it has no
 // room for per-activation state
-//@ writers C02,C04 Loop | stmtname, label, scopeDepth, loopStart, loopLen, breakOffset, continueOffset | (*Generator).GenerateForLoop
+//@ writers C04 Loop | stmtname, label, scopeDepth, loopStart, loopLen, breakOffset, continueOffset | (*Generator).GenerateForLoop
 //@ fieldsclosed C04 Loop | stmtname, label, scopeDepth, loopStart, loopLen, breakOffset, continueOffset
 // mdef: every target slot is filled with a symbol before the value is compiled; the bind
 // instruction hands each one to BindSymbol, which dereferences it
